@@ -43,7 +43,7 @@ def sources():
         ("sink_registry", os.path.join(core.VERIF, "sim", "c12", "schemas", "sink", "registry.xsd"), False, 2),
         ("xml_samples", os.path.join(core.VERIF, "sim", "c12", "samples", "xmldocs"), False, 2),
         ("json_samples", os.path.join(core.VERIF, "sim", "c12", "samples", "jsondocs"), False, 2),
-        ("xmlimport", os.path.join(core.VERIF, "sim", "c12", "schemas", "xmlimport", "article.xsd"), False, 2),
+        ("xmlimport", os.path.join(core.VERIF, "sim", "c12", "schemas", "xmlimport", "article.xsd"), False, 4),
         ("twins_v1", os.path.join(core.VERIF, "sim", "c12", "schemas", "twins", "v1"), False, 2),
         ("twins_v2", os.path.join(core.VERIF, "sim", "c12", "schemas", "twins", "v2"), False, 2),
         ("choices", os.path.join(core.VERIF, "sim", "c12", "schemas", "choices"), False, 4),
@@ -66,6 +66,7 @@ def sources():
     return [c for c in cands if os.path.exists(c[1])]
 
 
+W3_IMPORTERS = ("xmlimport", "features", "own_schemas")
 LOCATION_SENSITIVE = ("symlinked", "twins_v1", "twins_v2")
 
 
@@ -301,6 +302,9 @@ def check(args):
             if time.monotonic() > deadline:
                 break
             env = gen_env(prng, srcs) if (j or idx % 3) else dict(E0, hashseed=0)  # an exact repeat for every third pair
+            if j == 3 and name in W3_IMPORTERS:
+                # sources that import a W3C namespace by its well-known location, copied below a mirror-like path
+                env = dict(E0, hashseed=0, source_copy="mirror/www.w3.org/schemas", route=prng.choice(ROUTES))
             if j == 1:
                 env = dict(E0, hashseed=prng.randrange(1, 1 << 31))  # hash seed alone
             if j == 2 and params.get("include_header"):
